@@ -1,7 +1,7 @@
 """C06 — ParCons: the partition admits an optimal consensus; the optimality flag is truthful."""
 import random
 from hypothesis import strategies as st
-from vlib import gen, lib, configs, oracle
+from vlib import gen, lib, configs, oracle, mutate
 from vlib.harness import HypSub
 from vlib.lib import Violation
 from checks.common_alg import alg_cases, run_case, well_formed
@@ -119,23 +119,31 @@ def grid_cases(draw, tier):
     ds = draw(gen.datasets(max_n=mx, max_m=5, shapes=SHAPES))
     return {"scheme": scheme, "dataset": ds, "env": env, "aux": draw(st.sampled_from(AUX)),
             "bound": draw(st.sampled_from(BOUNDS)), "rng": draw(st.integers(0, 9999)),
-            "at_most_one": draw(st.booleans())}
+            "at_most_one": draw(st.booleans()), "via_mutation": draw(mutate.via_strategy(ds["rankings"], p=4))}
 
 
 def check_grid(case, ctx):
     rankings, scheme = case["dataset"]["rankings"], case["scheme"]
-    d, s = lib.mk_dataset(rankings), lib.mk_scheme(scheme)
+    s = lib.mk_scheme(scheme)
     inst = oracle.Instance(rankings, scheme)
     nt, labs = classify(inst, rankings)
     rec = configs.Recorder(make_aux(case["aux"]))
+    box = {}
 
     def run():
         with configs.solver_env(case["env"]):
-            random.seed(case["rng"])
             alg = ParCons(auxiliary_algorithm=rec, bound_for_exact=case["bound"])
-            return alg.compute_consensus_rankings(d, s, case["at_most_one"])
+
+            def warm(d0):
+                # the SAME ParCons instance (and auxiliary) is used on the dataset before its in-place mutation
+                alg.compute_consensus_rankings(d0, s, case["at_most_one"])
+            box["d"] = mutate.build(rankings, case.get("via_mutation"), warm)
+            del rec.calls[:]
+            random.seed(case["rng"])
+            return alg.compute_consensus_rankings(box["d"], s, case["at_most_one"])
 
     st_, val = lib.call(run, allowed=configs.REFUSALS)
+    d = box.get("d") or lib.mk_dataset(rankings)
     comps = oracle.graph_components(inst)
     hard_sizes = [len(c) for c in comps if len(c) >= 2 and not oracle.can_be_all_tied(inst, c)]
     mixed = any(x > case["bound"] for x in hard_sizes) and any(x <= case["bound"] for x in hard_sizes)
